@@ -103,9 +103,12 @@ def run(repo, R):
         g = repo.func(q)
         R.note_function(g.qualname)
         coefp, alphap = g.params[5], g.params[4]
-        uses = [n for n in ast.walk(g.node) if isinstance(n, ast.Name) and n.id == coefp and isinstance(n.ctx, ast.Load)]
+        meta = {id(n.value) for n in ast.walk(g.node) if isinstance(n, ast.Attribute) and n.attr in ("shape", "ndim", "size", "dtype")}
+        uses = [n for n in ast.walk(g.node) if isinstance(n, ast.Name) and n.id == coefp and isinstance(n.ctx, ast.Load) and id(n) not in meta]
         tds = [n for n in ast.walk(g.node) if isinstance(n, ast.Call) and ast.unparse(n.func) in ("np.tensordot", "numpy.tensordot") and
                any(isinstance(a, ast.Name) and a.id == coefp for a in n.args[:2])]
+        if not tds and uses:
+            raise AnalysisError("LIN", f"{g.name}: the coefficients are not contracted with np.tensordot: idiom not recognised", g.where(uses[0]))
         ok = len(uses) == 1 and len(tds) == 1 and ast.unparse(tds[0].args[2]) == "(0, 0)" and ast.unparse(tds[0].args[0]) == coefp
         R.check(ok, "LIN", g.site, f"np.tensordot({coefp}, ..., (0, 0)) is the only use of {coefp}",
                 "the evaluation back-end must use the coefficient matrix exactly once, contracting its primitive axis", where=g.where())
